@@ -13,7 +13,9 @@ SUPPLY = [({}, 6), ({"line": 901}, 2), ({"col": 77}, 2), ({"nchar": 5}, 2), ({"f
 
 def gen_case(r, force=None):
     as_string = r.chance(0.3)
-    w = L.gen_world(r, as_string=as_string)
+    # a third of the worlds have no cross-references: Model/Build.v does not cover them, and on these worlds
+    # the whole pipeline (parser model + builder model + dispatch) is evaluated
+    w = L.gen_world(r, as_string=as_string, refless=r.chance(0.35))
     files = w["files"]
     for f in files:
         L.tokens_of(f, files)
@@ -71,6 +73,34 @@ def coq_case(case):
         fs, L.coq_nat(case["fidx"]), L.coq_nat(p["pos"]), core.coq_bool(p["wrap"]), r)
 
 
+PIPE_FUEL = 200
+
+
+def pipeline_applies(c):
+    """object case of a generated world whose target file has no cross-references (Model/Build.v does not model them)"""
+    return c["proc"]["kind"] == "obj" and not c["world"].get("corpus") and not c["world"]["files"][c["fidx"]].refs
+
+
+def pipeline_expr(case, o, k):
+    """the same case through Model/Peg.v + Model/Build.v: the object is found by class and start offset in the
+    model built from the TEXT; its end (hence nchar) is the builder's, not the generator's"""
+    import pegdump
+    import mmdump
+    p = case["proc"]
+    s = p["supplied"]
+    if p["style"] == "other":
+        r = "RaisesOther"
+    else:
+        fn = s.get("filename")
+        r = "(RaisesTx (er %s %s %s %s))" % ("None" if fn is None else "(Some %s)" % core.coq_str(fn),
+                                             L.coq_onat(s.get("line")), L.coq_onat(s.get("col")), L.coq_onat(s.get("nchar")))
+    return ("let fs := %s in show_opt show_out (process_loaded_object process_fills location_keys gL%d cL%d (orc_of %s) %d mL%d "
+            "(grp_of %s) %s %s fs %s %s %s %s %s)") % (
+        L.coq_fs(case["world"]), k, k, pegdump.coq_table(o["peg_table"]), PIPE_FUEL, k, mmdump.coq_gtable(o["peg_gtable"]),
+        core.coq_bool(o["mm_auto"]), core.coq_bool(o["mm_use_grp"]), L.coq_nat(case["fidx"]), core.coq_str(p["cls_name"]),
+        L.coq_nat(p["pos"]), core.coq_bool(p["wrap"]), r)
+
+
 def oracle(case, o):
     """The property on the implementation's outcome."""
     p = case["proc"]
@@ -123,6 +153,10 @@ def run(chk):
     cases += [gen_case(chk.rng.split("fixed%d" % i), k) for i, k in enumerate(["obj", "match"] * 3)]
     cases += [gen_case(chk.rng.split(i)) for i in range(n)]
     payloads = [payload_of(c) for c in cases]
+    for c, p in zip(cases, payloads):
+        if pipeline_applies(c):   # span recomputed by the parser + builder models
+            p["peg_text"] = c["world"]["files"][c["fidx"]].seen
+            p["want_mm"] = True
     chunks = [list(range(len(cases)))[i::core.NPROC] for i in range(core.NPROC)]
     chunks = [c for c in chunks if c]
     outs = core.run_impl_parallel("c33", [{"cases": [payloads[i] for i in ch]} for ch in chunks])
@@ -130,8 +164,25 @@ def run(chk):
     for ch, o in zip(chunks, outs):
         for i, x in zip(ch, o):
             res[i] = x
-    vals, errs = core.coq_eval("C33", L.IMPORTS, [coq_case(c) for c in cases])
+    import pegdump
+    import mmdump
     disagreements, failures = [], []
+    pipe = [i for i, c in enumerate(cases) if res[i].get("mm_info") is not None]
+    keyf = lambda i: json.dumps([res[i]["peg_dump"], res[i]["mm_info"]], sort_keys=True)
+    variants = sorted({keyf(i) for i in pipe})          # with / without user classes
+    defs = []
+    for k, v in enumerate(variants):
+        dj, mi = json.loads(v)
+        defs.append("Definition gL%d : grammar := %s.\nDefinition cL%d : config := %s.\nDefinition mL%d : list ninfo := %s." % (
+            k, pegdump.coq_grammar(dj), k, pegdump.coq_config(dj), k, mmdump.coq_mm(mi)))
+    pipe_exprs = [pipeline_expr(cases[i], res[i], variants.index(keyf(i))) for i in pipe]
+    vals, errs = core.coq_eval("C33", L.IMPORTS, [coq_case(c) for c in cases] + pipe_exprs, defs="\n".join(defs))
+    pipe_vals = dict(zip(pipe, vals[len(cases):]))
+    vals = vals[:len(cases)]
+    n_obj = sum(1 for c in cases if pipeline_applies(c))
+    if len(pipe) != n_obj:
+        disagreements.append({"case": "parser/metamodel dump", "model": "dumped %d of %d object cases: %s" % (
+            len(pipe), n_obj, [res[i].get("peg_unsupported") for i in range(len(cases)) if res[i].get("peg_unsupported")][:2])})
     if errs:
         disagreements.append({"case": "coq evaluation", "model": errs[:2]})
     for i, (c, mv) in enumerate(zip(cases, vals)):
@@ -152,6 +203,15 @@ def run(chk):
         ic = L.impl_canon(o)
         if mv is not None and ic != mv:
             disagreements.append({"case": describe(c), "impl": o, "model": mv, "impl_canon": ic})
+        if i in pipe_vals:
+            pv = pipe_vals[i]
+            if pv == "None":
+                chk.stat("pipeline model: object outside the modelled fragment / not found")
+                disagreements.append({"case": describe(c), "impl": o, "model (Peg.run + Build + dispatch)": pv})
+            else:
+                chk.stat("object span computed by the parser and builder models")
+                if pv is not None and pv != ic:
+                    disagreements.append({"case": describe(c), "impl": o, "model (Peg.run + Build + dispatch)": pv, "impl_canon": ic})
         bad = oracle(c, o)
         if bad:
             failures.append({"case": describe(c), "impl": o, "model": mv, "what": bad, "tags": []})
